@@ -7,18 +7,34 @@ VO = list(K.VO)
 PROPS_FILES = ["props/C05.v"]
 TRANSLATORS = list(K.TRANSLATORS)
 REQUIRES = list(K.REQUIRES)
-SHARD = 60
+SHARD = 30
 CHUNK = 8
-CASE_TIMEOUT = 120
-PARTIAL = []
-
-LEVEL_TEXT = ""
-LEVEL_NOTE = ""
-TECHNIQUE = "Coq proof about the executable model of fit + pmf; differential model/implementation run"
-TRUSTED = ["Coq 8.16.1 kernel and vm_compute", "harness/props/_c04_common.py (generators, comparison)"]
-ASSUMPTIONS = []
-RULE = ""
+CASE_TIMEOUT = 900
+LEVEL_TEXT = ("Proof (Coq): hull_is_upper_hull (the monotone chain with the source's drop test returns an upper hull of its "
+              "sorted input) + jensen_chain (such a chain dominates every convex combination of the points) + every tradeoff "
+              "point is a threshold rule of the group + the arg-max is a maximum + the overall curve is the frequency-weighted "
+              "sum; hence C05_simple_optimal / C05_eo_optimal / C05_eo_objective_achieved: no family of per-group "
+              "randomisations over (flipped) thresholdings with a common grid value of the constrained metric beats the "
+              "fitted rule, for every input with both labels per group. Tie to the code: translators + differential run; "
+              "oracle = objective achieved by the implementation's own pmf vs the model optimum.")
+LEVEL_NOTE = ("Trusted: Coq kernel + vm_compute; the two translators; the harness. np.around(., 15) of the equalized-odds "
+              "objective and float rounding are outside the model (near-ties are compared by value only).")
+TECHNIQUE = "Coq proof (hull correctness + Jensen on the hull chain + arg-max) about the executable model; differential run with value oracle"
+TRUSTED = ["Coq 8.16.1 kernel and vm_compute", "translators/t_metricdict.py, translators/t_hull.py (Python ast -> Gallina)",
+           "harness/props/_c04_common.py (generators, oracles computed from the implementation's own _pmf_predict)",
+           "numpy/pandas float arithmetic, groupby and stable multi-key sort (modelled, compared by correspondence)",
+           "no axioms (Print Assumptions: closed)"]
+ASSUMPTIONS = ["scores are finite; the model uses integer score levels (any finite set of rational scores is one after a "
+               "positive rescaling, which commutes with thresholding); correspondence cases use dyadic affine images of the levels",
+               "every group contains both labels (the guard of _calculate_tradeoff_points)",
+               "exact rational arithmetic in the model; the implementation is compared within 1e-9"]
+RULE = ("cases: every multiset (up to group swap and order-preserving relabelling of score levels) of (group,label,level) rows "
+        "with 2 groups, <=3 levels, <=5 rows (thorough <=6) in which each group has both labels, each with 3 (thorough 6) "
+        "configurations taken in rotation from the 378 = constraints x admissible objectives x flip x grid{1,2,3,4,5,7,10}; "
+        "plus random tables (2..5 groups, 2..8 rows each, <=5 levels, grid sizes up to 1000). non-trivial = the chosen grid "
+        "value is interior, or some group's rule is a genuine mixture (0<p0<1), or p_ignore>0")
 EXHAUSTIVE = {"quick": False, "thorough": False}
+PARTIAL = []
 
 
 def cases(tier, seed):
